@@ -43,6 +43,10 @@ def declare(P, config, with_optional=False, with_worker=False):
         # the iteration limit is a rarely used exit of the optimisation loop
         ps.ObjectiveMinimizeMakespan()
         cfg["max_iter"] = int(config[-1])
+    elif config in ("incremental_max_maxiter1", "incremental_max_maxiter2"):
+        # ... cut short on a maximisation (the solver's first models are far from the optimum)
+        ps.ObjectiveTasksStartLatest()
+        cfg["max_iter"] = int(config[-1])
     elif config == "optimize":
         ps.ObjectiveMinimizeMakespan()
         cfg["optimizer"] = "optimize"
@@ -255,7 +259,7 @@ def shapes(tier):
     for seq in [("solve",), ("solve", "solve"), ("solve", "another"), ("initialize", "solve"), ("initialize", "initialize"), ("solve", "initialize"),
                 ("solve", "initialize", "solve")]:
         out.append(session_shape(PROP, seq, "multi", max_checks=4))
-    for config in ("incremental_maxiter1", "incremental_maxiter2"):
+    for config in ("incremental_maxiter1", "incremental_maxiter2", "incremental_max_maxiter1"):
         for seq in [("solve",), ("solve", "solve"), ("solve", "another"), ("solve", "export"), ("solve", "another_var"), ("solve", "solve", "solve"),
                     ("solve", "another", "solve")]:
             out.append(session_shape(PROP, seq, config, max_checks=5))
@@ -351,6 +355,27 @@ def replay_session(desc):
         for f in os.listdir(tmpdir):
             os.unlink(os.path.join(tmpdir, f))
         os.rmdir(tmpdir)
+        # what is left on the real solver's stack after the session: a valid schedule that was never returned and
+        # that the stack excludes can never be delivered by a later call (the enumeration cannot be exhaustive, a
+        # later solve() may report a feasible problem infeasible). Only when the stack speaks about the problem's own
+        # constants (no run-specific names), so that the query needs no quantifier.
+        try:
+            if not problems and feasible and solver._solver is not None and not isinstance(solver._solver, z3.Optimize) and "another_var" not in se["seq"]:
+                stack = list(solver._solver.assertions())
+                cs, _ = formula.constants(stack)
+                cb, _ = formula.constants(base)
+                if set(cs) <= set(cb):
+                    oracle.push()
+                    for s_, e_ in returned:
+                        oracle.add(z3.Or([z3.Or(t.s != s_[t.name], t.e != e_[t.name]) for t in tis0]))
+                    oracle.add(z3.Not(z3.And(stack)))
+                    if oracle.check() == z3.sat:
+                        m = oracle.model()
+                        lost = {t.name: (m.eval(t.s, True), m.eval(t.e, True)) for t in tis0}
+                        problems.append(f"after the session the solver's own assertions exclude the valid, never returned schedule {lost}: no later call can deliver it")
+                    oracle.pop()
+        except z3.Z3Exception:
+            pass
     engine.reset_z3_globals()
     print(f"replay: sequence {se['seq']} on config {se['config']}: base feasible = {feasible}; problems = {problems}")
     if problems:
